@@ -369,6 +369,10 @@ func suiteBudget(o *suiteOut, r *rng, tier string, n int) {
 			}
 			o.emit(line, "skip", true)
 		}
+		runsLine(o, 1000, true, h) // the same history through the Lean model (up to the first failing call)
+		for cut := 1; cut < len(h); cut++ {
+			runsLine(o, 1000, true, h[cut:])
+		}
 		o.count("start-check histories")
 	}
 	o.notes = append(o.notes, "every budget N in 1..ops(P)+2 for short programs (sampled cut points for long ones), runaway recursion shapes under six budgets, start-check prefixes; direct oracles: state under budget N >= ops equals the unbudgeted state, limit error and NumOps <= N+1 otherwise, stack and dictionary stack caps")
